@@ -1,5 +1,6 @@
 """C02 - tags are the union over all matching rules; tag-only rules never categorize."""
 import itertools
+from engine.ob import use_engine
 from engine.ob import Obligation, post, reset_tally_caches
 from harness import sel
 
@@ -246,7 +247,7 @@ def two_rows_same_but_field():
         from tally import merchant_utils
         from tally.merchant_engine import parse_merchants
         reset_tally_caches()
-        merchant_utils._cached_engine = parse_merchants('[Z]\nmatch: contains("ZELLE")\ncategory: P2P\ntags: {field.k}\n\n[A]\nmatch: field.k == "a"\ntags: isa\n')
+        use_engine(parse_merchants('[Z]\nmatch: contains("ZELLE")\ncategory: P2P\ntags: {field.k}\n\n[A]\nmatch: field.k == "a"\ntags: isa\n'))
         out = []
         for k in (k1, k2):
             r = merchant_utils.normalize_merchant('ZELLE PAY', [], amount=100.0, field={'k': k}, data_source='S')
